@@ -106,3 +106,30 @@ Proof. induction cands as [|[j cl] r IH]; simpl; intros H. discriminate. destruc
 Lemma first_containing_none proj cands : first_containing proj cands = None -> forall i cl, In (i, cl) cands -> subsetb proj cl = false.
 Proof. induction cands as [|[j cl] r IH]; simpl; intros H i cl' Hin. contradiction. destruct (subsetb proj cl) eqn:E. discriminate.
   destruct Hin as [Hin|Hin]. injection Hin as <- <-. auto. eauto. Qed.
+
+(* ---- C03: the Frank-Wolfe gap certificate.  x is a table over all p cells, Q the stacked (query o marginalisation) matrix. ---- *)
+Lemma qsum_le n f g : (forall i, (i < n)%nat -> f i <= g i) -> qsum n f <= qsum n g.
+Proof. induction n; intros H. apply Qcle_refl. rewrite !qsum_S. apply Qcplus_le_compat; auto. Qed.
+(* linear minimisation over {P >= 0, sum P = N} is attained at a vertex: <g, P> >= N * min g *)
+Lemma linear_lower_bound p g P lo : (forall j, (j < p)%nat -> lo <= g j) -> (forall j, (j < p)%nat -> 0 <= P j) -> lo * qsum p P <= dot p g P.
+Proof. intros Hg HP. unfold dot. rewrite <- qsum_scale. apply qsum_le. intros j Hj. apply Qcmult_le_compat_r; auto. Qed.
+
+Theorem fw_gap_certificate Q m p y c Phat P lo :
+  (forall j, (j < p)%nat -> lo <= grad_m Q m p y c Phat j) -> (forall j, (j < p)%nat -> 0 <= P j) -> qsum p P = qsum p Phat ->
+  loss_m Q m p y c Phat - loss_m Q m p y c P <= dot p (grad_m Q m p y c Phat) Phat - lo * qsum p Phat.
+Proof. intros Hg HP HN.
+  pose proof (loss_convex Q m p y c Phat (fun j => P j - Phat j)) as CV.
+  assert (E : loss_m Q m p y c (fun j => Phat j + (P j - Phat j)) = loss_m Q m p y c P).
+  { unfold loss_m, resid, matvec, dot. f_equal. apply qsum_ext. intros i _. f_equal; f_equal; f_equal; apply qsum_ext; intros; ring. }
+  cbv beta in CV. rewrite E in CV.
+  assert (L : dot p (grad_m Q m p y c Phat) (fun j => P j - Phat j) = dot p (grad_m Q m p y c Phat) P - dot p (grad_m Q m p y c Phat) Phat).
+  { unfold dot. unfold Qcminus. rewrite <- (Qcmult_1_l (qsum p (fun i => grad_m Q m p y c Phat i * Phat i))).
+    replace (- (1 * qsum p (fun i => grad_m Q m p y c Phat i * Phat i))) with ((- (1)) * qsum p (fun i => grad_m Q m p y c Phat i * Phat i)) by ring.
+    rewrite <- qsum_scale, <- qsum_add. apply qsum_ext. intros. ring. }
+  rewrite L in CV. pose proof (linear_lower_bound p (grad_m Q m p y c Phat) P lo Hg HP) as LB. rewrite HN in LB.
+  (* L(Phat) - L(P) <= <g,Phat> - <g,P> <= <g,Phat> - lo N *)
+  apply Qcle_trans with (dot p (grad_m Q m p y c Phat) Phat - dot p (grad_m Q m p y c Phat) P).
+  - apply Qcle_minus_iff. apply Qcle_minus_iff in CV.
+    replace (dot p (grad_m Q m p y c Phat) Phat - dot p (grad_m Q m p y c Phat) P + - (loss_m Q m p y c Phat - loss_m Q m p y c P))
+      with (loss_m Q m p y c P + - (loss_m Q m p y c Phat + (dot p (grad_m Q m p y c Phat) P - dot p (grad_m Q m p y c Phat) Phat))) by ring. exact CV.
+  - unfold Qcminus. apply Qcplus_le_compat. apply Qcle_refl. apply Qcopp_le_compat. exact LB. Qed.
